@@ -117,9 +117,9 @@ def flushGz (w : W) : W :=
     let a := w.orcF.headD 0
     { w with cur := some ⟨m.payload, m.clen + a⟩, cwN := w.cwN + a, orcF := w.orcF.tail }
 
-/-- Reading `w.cw.n` while a stream is open and was not just flushed (`prevOffset := w.cw.n` at the
-start of `appendTar`): the compressor may have pushed bytes on its own since the last flush (gzip
-writes its header at the first `Write`); the oracle says how many. -/
+/-- (Only used by the pre-6f1f089 variant `appendTarOld`.)  Reading `w.cw.n` while a stream is open
+and was not just flushed: the compressor may have pushed bytes on its own since the last flush
+(gzip writes its header at the first `Write`); the oracle says how many. -/
 def spillGz (w : W) : W := flushGz w
 
 /-- `closeGz`: the stream is finished (at least one more byte), `w.gz = nil`. -/
@@ -188,9 +188,26 @@ def appendEntries (P : Params) : W × Loc → List TarEnt → Option (W × Loc)
 /-- `appendTar(r, lossless)`; `tail` = what follows the last entry in the source (end-of-archive
 blocks and anything after them): kept in lossless mode, discarded otherwise. -/
 def appendTar (P : Params) (w : W) (ents : List TarEnt) (tail : Bytes) : Option W :=
+  -- `w.closeGz()` first (commit 6f1f089): every call starts on a member boundary, then
+  -- `prevOffset := w.cw.n; prevOffsetUncompressed := w.uncompressedCounter.n`
+  match appendEntries P (closeGz w, ⟨(closeGz w).cwN, (closeGz w).uncN⟩) ents with
+  | none => none
+  | some (w', _) => some (if P.lossless ∧ tail ≠ [] then write w' tail else w')
+
+/-- `appendTar` as it was BEFORE commit 6f1f089 (kept as a documented counterexample variant):
+no `closeGz`, `prevOffset := w.cw.n` read in the middle of an open stream and
+`prevOffsetUncompressed := 0`.  See `SV.Props.C03.old_appendTar_breaks_index`. -/
+def appendTarOld (P : Params) (w : W) (ents : List TarEnt) (tail : Bytes) : Option W :=
   match appendEntries P (spillGz w, ⟨(spillGz w).cwN, 0⟩) ents with
   | none => none
   | some (w', _) => some (if P.lossless ∧ tail ≠ [] then write w' tail else w')
+
+def appendTarsOld (P : Params) : W → List (List TarEnt × Bytes) → Option W
+  | w, [] => some w
+  | w, (ents, tail) :: rest =>
+    match appendTarOld P w ents tail with
+    | none => none
+    | some w' => appendTarsOld P w' rest
 
 /-- Several `AppendTar` calls on the same Writer. -/
 def appendTars (P : Params) : W → List (List TarEnt × Bytes) → Option W
@@ -251,6 +268,13 @@ def close (F : Fmt) (w : W) (tocTar : List TocEnt → Bytes) (a : Nat) : Blob :=
 def writerRun (P : Params) (F : Fmt) (calls : List (List TarEnt × Bytes))
     (tocTar : List TocEnt → Bytes) (orcF orcC : List Nat) (a : Nat) : Option Blob :=
   match appendTars P { orcF := orcF, orcC := orcC } calls with
+  | none => none
+  | some w => some (close F w tocTar a)
+
+/-- `writerRun` with the pre-6f1f089 `appendTar`. -/
+def writerRunOld (P : Params) (F : Fmt) (calls : List (List TarEnt × Bytes))
+    (tocTar : List TocEnt → Bytes) (orcF orcC : List Nat) (a : Nat) : Option Blob :=
+  match appendTarsOld P { orcF := orcF, orcC := orcC } calls with
   | none => none
   | some w => some (close F w tocTar a)
 
